@@ -92,15 +92,24 @@ def membership_rule(ctx, F, R="R-TABLE"):
     """write_string decides per index whether to escape by membership in escape_indice, a list built in unsorted order
     (unbalanced '(' positions are appended at the end): the test must be order-insensitive."""
     b = F.fn("Writer::write_string")
-    tests = [c for c in b.calls if c.args and "escape_indice" in b.oname(c.args[0], 3) and re.search(r"(contains|binary_search|binary_search_by|binary_search_by_key|partition_point|iter|first|last|get)$", c.fn or "")]
-    sorts = [c for c in b.calls if c.args and re.search(r"::(sort|sort_unstable|sort_by|sort_by_key|sort_unstable_by|dedup)$", c.fn or "") and "escape_indice" in b.oname(c.args[0], 3)]
+    # the index list is identified by data flow: the Vec<usize> that receives `append(&mut other Vec<usize>)`
+    app = [c for c in b.calls if len(c.args) == 2 and re.search(r"Vec::<.*>::append$", c.fn or "") and "usize" in (c.full or "")]
+    V = None
+    if len(app) == 1:
+        o = lib.origin_local(F, b, app[0].args[0])
+        V = o[1] if o is not None and o[0] is b and not o[2] else None
+
+    def onV(c):
+        o = lib.origin_local(F, b, c.args[0]) if c.args else None
+        return o is not None and o[0] is b and o[1] == V and not o[2]
+    tests = [c for c in b.calls if V is not None and onV(c) and re.search(r"(contains|binary_search|binary_search_by|binary_search_by_key|partition_point|iter|into_iter|first|last|get)$", c.fn or "")]
+    sorts = [c for c in b.calls if V is not None and onV(c) and re.search(r"::(sort|sort_unstable|sort_by|sort_by_key|sort_unstable_by)$", c.fn or "")]
     bad = [c for c in tests if not re.search(r"slice::<impl \[T\]>::contains$", c.fn or "")]
     ok = bool(tests) and (not bad or all(any(b.dominates(s.bb, c.bb) for s in sorts) for c in bad))
-    ctx.ob(R, "strings|escape-membership", ok, "escape decision is `escape_indice.contains(&index)` (order-insensitive)", b.where(),
-           what="write_string looks an index up in escape_indice with %s, but the list is not sorted (positions of unclosed '(' are appended last): some bytes that must be escaped are written raw"
+    ctx.ob(R, "strings|escape-membership", ok, "the escape decision is a `contains` test on the index list (order-insensitive), or the list is sorted first", b.where(),
+           what="write_string looks an index up in its list of positions to escape with %s, but the list is not sorted (positions of unclosed '(' are appended last): some bytes that must be escaped are written raw"
                 % sorted(set((c.fn or "").rsplit("::", 1)[-1] for c in bad)))
-    app = [c for c in b.calls if len(c.args) == 2 and re.search(r"Vec::<.*>::append$", c.fn or "") and "escape_indice" in b.oname(c.args[0], 3) and "parentheses" in b.oname(c.args[1], 3)]
-    ctx.ob(R, "strings|unclosed-parens-escaped", len(app) == 1, "unclosed '(' positions are appended to escape_indice", b.where(),
+    ctx.ob(R, "strings|unclosed-parens-escaped", len(app) == 1 and V is not None, "unclosed '(' positions are appended to the list of positions to escape", b.where(),
            what="write_string no longer escapes '(' that are never closed")
 
 
